@@ -208,7 +208,7 @@ func c03LogSize(dir string) int64 {
 }
 
 type c03Marks struct {
-	grow   map[int]int64 // request index -> bytes the value log grew by
+	grow   map[int]int64   // request index -> bytes the value log grew by
 	signed map[string]bool // "i k": request i, key k reached Sign
 	acked  map[string]bool
 	points int
